@@ -350,3 +350,105 @@ def install(reg):
         body = z3.And(is_place(p), sb(indom(src.t, k)), *[sb(f) for f in flt], ppos(p) == sb(ev.t.arg(1)))
         return _ListOfSet(z3.Lambda([p], body))
     reg.add_hook("comprehension_whole", comp_whole)
+
+
+# ---------------------------------------------------------------------- names of a Petri net (extract_variable_names / extract_source_variables)
+LNm = TList(TName)
+NameSet = z3.ArraySort(Name, B)
+MemName, AX_MEMNAME = _T.mem_theory(LNm, "nm")
+SortedNames = z3.Function("SortedNames", NameSet, LNm.sort())      # sorted(<set of names>): the elements in ascending string order
+change_of = z3.Function("pn_change", PNode, TOpt(TName).sort())    # node attribute `change` (None for places)
+_ns, _nk = z3.Const("s!sn", NameSet), z3.Const("k!sn", Name)
+_ia, _ib = z3.Int("a!sn"), z3.Int("b!sn")
+AX_SORTED = [
+    # sorted() of a finite set of names enumerates exactly its elements, each once (the order itself - string comparison - is not modelled;
+    # the result is a FUNCTION of the set, which is what reproducibility needs)
+    z3.ForAll([_ns], z3.And(LNm.len(SortedNames(_ns)) >= 0,
+                            z3.ForAll([_nk], MemName(SortedNames(_ns), _nk) == _ns[_nk]),
+                            z3.ForAll([_ia, _ib], z3.Implies(z3.And(0 <= _ia, _ia < _ib, _ib < LNm.len(SortedNames(_ns))),
+                                                             LNm.at(SortedNames(_ns))[_ia] != LNm.at(SortedNames(_ns))[_ib]))),
+              patterns=[SortedNames(_ns)]),
+]
+TRUSTED["sorted(<names>)"] = "returns the distinct elements in a fixed total order: modelled as the function SortedNames of the element set"
+_mk = z3.Const("mn!k", Name)
+LSetF = z3.Function("LSet", LNm.sort(), NameSet)               # the same symbol as contracts/deps.py LSet (element set of a list of names)
+SrcSetG = z3.Function("SrcSetG", PNGraph, NameSet)            # variables of the net that no transition changes
+VarSetG = z3.Function("VarSetG", PNGraph, NameSet)            # variables of the net (those with a negative place)
+_gg, _nn = z3.Const("g!sg", PNGraph), z3.Const("n!sg", PNode)
+
+
+def changed_by_some(g, v, among=None):
+    n = _nn
+    cond = PNGraph.nodes(g)[n] if among is None else among[n]
+    return z3.Exists([n], z3.And(cond, change_of(n) == TOpt(TName).some(v)))
+
+
+AX_NAMESETS = [
+    z3.ForAll([_gg, _nk], VarSetG(_gg)[_nk] == PNGraph.nodes(_gg)[place(_nk, False)], patterns=[VarSetG(_gg)[_nk]]),
+    z3.ForAll([_gg, _nk], SrcSetG(_gg)[_nk] == z3.And(VarSetG(_gg)[_nk], z3.Not(changed_by_some(_gg, _nk))), patterns=[SrcSetG(_gg)[_nk]]),
+    z3.ForAll([_ns], LSetF(SortedNames(_ns)) == _ns, patterns=[SortedNames(_ns)]),
+]
+
+
+def name_set(l):
+    """element set of a list of names (fixed bound variable)"""
+    return z3.Lambda([_mk], MemName(l, _mk))
+
+
+class _NodesAttr(_NodesData):
+    def pick(self, st, gh):
+        k = z3.Const(fresh_name("node"), PNode)
+        st.assume(self.set[k])
+        st.assume(z3.Not(gh["visited"][k]))
+        gh["cur"] = k
+        return E._PyTuple([Val(TPNode, k), Val(TOpt(TName), change_of(k))])
+
+
+class PNGModelNames(PNGModelAsp):
+    def method(self, eng, st, v, meth, args, kw, node, recv_expr=None):
+        if meth == "nodes" and not args and not kw:
+            return Val(TSet(TPNode), PNGraph.nodes(v.t))
+        if meth == "nodes" and not args and set(kw) == {"data"} and isinstance(kw["data"], E._StrLit) and kw["data"].s == "change":
+            return _NodesAttr(v, "change")
+        return super().method(eng, st, v, meth, args, kw, node, recv_expr)
+
+
+class PNodeModel(ObjModel):
+    """node names: only the two prefix tests of the place encoding are modelled (is_place = has prefix b0_ or b1_; ppos = prefix b1_)"""
+
+    def method(self, eng, st, v, meth, args, kw, node, recv_expr=None):
+        if meth == "startswith" and len(args) == 1 and isinstance(args[0], E._StrLit):
+            if args[0].s == "b0_":
+                return vbool(z3.And(is_place(v.t), z3.Not(ppos(v.t))))
+            if args[0].s == "b1_":
+                return vbool(z3.And(is_place(v.t), ppos(v.t)))
+        raise OutOfSubset(f"str.{meth} on a node name")
+
+
+_install_asp0 = install
+
+
+def install(reg):
+    _install_asp0(reg)
+    reg.models = [(p, (PNGModelNames() if type(m) is PNGModelAsp else m)) for p, m in reg.models]
+    reg.add_model(lambda v: v.ty == TPNode, PNodeModel())
+
+    def iterate(eng, st, coll, node):
+        if isinstance(coll, _NodesAttr):
+            return coll
+        return None
+    reg.add_hook("iterate", iterate)
+
+    def sorted_names(eng, st, v, kw, node):
+        if kw:
+            return None
+        if isinstance(v.ty, TList) and v.ty.elem == TName:
+            # sorted(list) keeps duplicates; the set-based model applies to duplicate-free lists only
+            a, b = z3.Int(fresh_name("a")), z3.Int(fresh_name("b"))
+            eng.oblige(st, f"sorted.argument_has_no_duplicates@{node.lineno}", z3.ForAll([a, b], z3.Implies(
+                z3.And(0 <= a, a < b, b < LNm.len(v.t)), LNm.at(v.t)[a] != LNm.at(v.t)[b])), node.lineno, kind="safety")
+            return Val(LNm, SortedNames(name_set(v.t)))
+        if isinstance(v.ty, TSet) and v.ty.elem == TName:
+            return Val(LNm, SortedNames(v.t))
+        return None
+    reg.add_hook("sorted", sorted_names)
